@@ -5,6 +5,8 @@ SIM_WRAPS = ["coap_ticks", "close", "epoll_ctl", "epoll_wait", "recv", "send",
              "coap_socket_bind_udp", "coap_socket_connect_udp", "coap_socket_send", "coap_socket_recv",
              "coap_socket_bind_tcp", "coap_socket_connect_tcp1", "coap_socket_connect_tcp2", "coap_socket_accept_tcp"]
 SIM = dict(wraps=SIM_WRAPS, extra_sources=["sim/sim.cc"])
+# + select(): the WebSocket layer waits for the peer's Close with it (C02, C05)
+SIM_SELECT = dict(wraps=SIM_WRAPS + ["select"], extra_sources=["sim/sim.cc"])
 ALLOC_WRAPS = ["coap_malloc_type", "coap_realloc_type", "coap_free_type"]
 SIM_ALLOC = dict(wraps=SIM_WRAPS + ALLOC_WRAPS, extra_sources=["sim/sim.cc", "sim/alloc.cc"])
 
@@ -42,7 +44,7 @@ PROPS = {
         libs=["-lcrypto"],
         case_timeout=20,
         timeout_is_violation=True,
-        **SIM,
+        **SIM_SELECT,
     ),
     "C13": dict(
         level="exploration",
@@ -147,7 +149,7 @@ PROPS = {
         quick=rcl(10, 700, 330) + enum(6, 6000),
         thorough=rcl(12, 20000, 330) + enum(4, 128000),
         libs=["-lcrypto"],
-        **SIM,
+        **SIM_SELECT,
     ),
     "C10": dict(
         level="exploration",
